@@ -759,6 +759,7 @@ type c12Out struct {
 	raw     []parquet.Row     // row paths only
 	rawCols [][]parquet.Value // convert-rowgroup-chunks only: the values as served by the chunks
 	extra   []c12Extra        // further L1 failures of the path (page slices, seeks)
+	order   []int             // non-nil: the output must hold these rows (global ids: id % number of rows = row index), in this order
 }
 
 // c12Extra is an L1 failure a path found besides the comparison of its output streams.
@@ -775,6 +776,9 @@ type c12Case struct {
 	batch      int
 	tleaves    []c12Leaf
 	cuts       *rand.Rand // page slice bounds and seek positions of the column-chunk path
+	trows      []parquet.Row // the projected rows, shredded against the target schema by the harness
+	tfile      []byte        // a file holding trows under the target schema (nil: not available)
+	views      *c12View      // composition of row-group views read by the composed-views paths
 }
 
 func (c *c12Case) open() (*parquet.File, error) {
@@ -1273,6 +1277,323 @@ var c12Paths = []c12Path{
 	}},
 }
 
+
+// ---------------------------------------------------------------- views composed of views
+
+// c12View is a composition of row-group views over the rows of the case: leaves are row groups
+// holding the source rows under the source schema (S: file row group, SB: Buffer) or the projected
+// rows under the target schema (T: file row group, TB: Buffer); inner nodes are the library's view
+// constructors: merge = MergeRowGroups(kids, target schema) without sorting columns, multi =
+// MultiRowGroup(kids...) (kids under the target schema), conv = ConvertRowGroup(kid, Convert(target,
+// kid schema)), range = rows [off, off+n) of a leaf as the merge planner cuts them (hook
+// VerifNewRowRange; a conversion goes on top of the range). Whatever the
+// shape, reading the root must yield the projected rows its leaves stand for, in order: a view
+// handed to another view constructor is a row group like any other.
+type c12View struct {
+	op     string
+	kids   []*c12View
+	off, n int // range: rows [off, off+n) of the kid
+}
+
+func (v *c12View) text() string {
+	if len(v.kids) == 0 {
+		return v.op
+	}
+	var parts []string
+	for _, k := range v.kids {
+		parts = append(parts, k.text())
+	}
+	if v.op == "range" {
+		return fmt.Sprintf("range[%d,%d)(%s)", v.off, v.off+v.n, parts[0])
+	}
+	return v.op + "(" + strings.Join(parts, ",") + ")"
+}
+
+func (v *c12View) leafCount() int {
+	if len(v.kids) == 0 {
+		return 1
+	}
+	n := 0
+	for _, k := range v.kids {
+		n += k.leafCount()
+	}
+	return n
+}
+
+func (v *c12View) depth() int {
+	d := 0
+	for _, k := range v.kids {
+		d = max(d, 1+k.depth())
+	}
+	return d
+}
+
+func (v *c12View) count(op string) int {
+	n := 0
+	if v.op == op {
+		n = 1
+	}
+	for _, k := range v.kids {
+		n += k.count(op)
+	}
+	return n
+}
+
+// expect: the rows the view stands for, as global ids (leaf number * nrows + row index); next is
+// the number of leaves seen so far.
+func (v *c12View) expect(nrows int, next *int) []int {
+	if len(v.kids) == 0 {
+		ids := make([]int, nrows)
+		for i := range ids {
+			ids[i] = *next*nrows + i
+		}
+		*next++
+		return ids
+	}
+	var ids []int
+	for _, k := range v.kids {
+		ids = append(ids, k.expect(nrows, next)...)
+	}
+	if v.op == "range" {
+		ids = ids[v.off : v.off+v.n]
+	}
+	return ids
+}
+
+// c12GenView draws a view of the given depth budget over leaves of nrows rows; tgtOnly: the view
+// must present the target schema (member of a MultiRowGroup); haveT: a file/buffer under the
+// target schema is available.
+func c12GenView(r *rand.Rand, depth, nrows int, tgtOnly, haveT bool) *c12View {
+	leaf := func() *c12View {
+		ops := []string{"S", "SB"}
+		if haveT {
+			ops = []string{"S", "SB", "T", "T", "TB"}
+		}
+		op := ops[r.Intn(len(ops))]
+		v := &c12View{op: op}
+		// a row range of the leaf, sometimes a range of a range; a conversion goes on top of the
+		// range, which is where rowRangeOf puts the range of a converted row group
+		for n := nrows; n > 1 && r.Intn(4) == 0; {
+			off := r.Intn(n)
+			ln := 1 + r.Intn(n-off)
+			if ln == n {
+				ln--
+			}
+			v = &c12View{op: "range", kids: []*c12View{v}, off: off, n: ln}
+			n = ln
+		}
+		if tgtOnly && (op == "S" || op == "SB") {
+			v = &c12View{op: "conv", kids: []*c12View{v}}
+		}
+		return v
+	}
+	if depth <= 0 || r.Intn(10) < 4 {
+		return leaf()
+	}
+	switch x := r.Intn(10); {
+	case x < 6:
+		v := &c12View{op: "merge"}
+		for i, n := 0, 2+r.Intn(2); i < n; i++ {
+			v.kids = append(v.kids, c12GenView(r, depth-1, nrows, false, haveT))
+		}
+		return v
+	case x < 9:
+		v := &c12View{op: "multi"}
+		for i, n := 0, 2+r.Intn(2); i < n; i++ {
+			v.kids = append(v.kids, c12GenView(r, depth-1, nrows, true, haveT))
+		}
+		return v
+	}
+	return &c12View{op: "conv", kids: []*c12View{c12GenView(r, depth-1, nrows, false, haveT)}}
+}
+
+// c12RootView: the root is a merge or a multi row group of at least two members.
+func c12RootView(r *rand.Rand, nrows int, haveT bool) *c12View {
+	for {
+		v := c12GenView(r, 2+r.Intn(2), nrows, false, haveT)
+		if v.op == "merge" || v.op == "multi" {
+			return v
+		}
+	}
+}
+
+// c12Built is a view as built from the library's constructors, with its text for the Lean model
+// (`L<n>` leaf, `C(..)` a conversion that ConvertRowGroup really installs, `M(..)` multi row
+// group, `R<off>.<len>(..)` row range) and, for every node of that text in preorder, what the
+// library says about the row group: rowGroupReadsChunksInOrder.
+type c12Built struct {
+	rg    parquet.RowGroup
+	lean  string
+	flags []string
+}
+
+func c12ViewFlags(rg parquet.RowGroup) string {
+	return map[bool]string{true: "1", false: "0"}[parquet.VerifReadsChunksInOrder(rg)]
+}
+
+// converted: ConvertRowGroup(b, Convert(target, schema of b)) - the row group itself when the
+// schemas are equal
+func (c *c12Case) converted(b *c12Built) (*c12Built, error) {
+	if parquet.EqualNodes(b.rg.Schema(), c.tgtS) {
+		return b, nil
+	}
+	conv, err := parquet.Convert(c.tgtS, b.rg.Schema())
+	if err != nil {
+		return nil, err
+	}
+	cg := parquet.ConvertRowGroup(b.rg, conv)
+	return &c12Built{rg: cg, lean: "C(" + b.lean + ")", flags: append([]string{c12ViewFlags(cg)}, b.flags...)}, nil
+}
+
+func (c *c12Case) buildView(v *c12View) (*c12Built, error) {
+	leaf := func(rg parquet.RowGroup) (*c12Built, error) {
+		return &c12Built{rg: rg, lean: fmt.Sprintf("L%d", len(c.rows)), flags: []string{c12ViewFlags(rg)}}, nil
+	}
+	switch v.op {
+	case "S":
+		f, err := c.open()
+		if err != nil {
+			return nil, err
+		}
+		return leaf(parquet.MultiRowGroup(f.RowGroups()...))
+	case "T":
+		f, err := parquet.OpenFile(bytes.NewReader(c.tfile), int64(len(c.tfile)))
+		if err != nil {
+			return nil, err
+		}
+		return leaf(parquet.MultiRowGroup(f.RowGroups()...))
+	case "SB", "TB":
+		schema, rows := c.srcS, c.rows
+		if v.op == "TB" {
+			schema, rows = c.tgtS, c.trows
+		}
+		b := parquet.NewBuffer(schema)
+		for _, row := range rows {
+			if _, err := b.WriteRows([]parquet.Row{row.Clone()}); err != nil {
+				return nil, err
+			}
+		}
+		return leaf(b)
+	}
+	kids := make([]*c12Built, len(v.kids))
+	for i, k := range v.kids {
+		b, err := c.buildView(k)
+		if err != nil {
+			return nil, err
+		}
+		kids[i] = b
+	}
+	switch v.op {
+	case "conv":
+		return c.converted(kids[0])
+	case "range":
+		rg := parquet.VerifNewRowRange(kids[0].rg, int64(v.off), int64(v.n))
+		return &c12Built{rg: rg, lean: fmt.Sprintf("R%d.%d(%s)", v.off, v.n, kids[0].lean),
+			flags: append([]string{c12ViewFlags(rg)}, kids[0].flags...)}, nil
+	}
+	rgs := make([]parquet.RowGroup, len(kids))
+	var texts, flags []string
+	for i, k := range kids {
+		rgs[i] = k.rg
+		m := k
+		if v.op == "merge" {
+			// what MergeRowGroups puts into its multi row group
+			var err error
+			if m, err = c.converted(k); err != nil {
+				return nil, err
+			}
+		}
+		texts = append(texts, m.lean)
+		flags = append(flags, m.flags...)
+	}
+	var rg parquet.RowGroup
+	if v.op == "merge" {
+		var err error
+		if rg, err = parquet.MergeRowGroups(rgs, c.tgtS); err != nil {
+			return nil, err
+		}
+	} else {
+		rg = parquet.MultiRowGroup(rgs...)
+	}
+	return &c12Built{rg: rg, lean: "M(" + strings.Join(texts, ",") + ")", flags: append([]string{c12ViewFlags(rg)}, flags...)}, nil
+}
+
+var errC12NoViews = fmt.Errorf("no composed views for this case")
+
+// c12ViewPath wraps a reader of the composed root view as a path.
+func c12ViewPath(name string, read func(ctx *core.Ctx, c *c12Case, root parquet.RowGroup) (*c12Out, error)) c12Path {
+	return c12Path{name, false, 1, func(ctx *core.Ctx, c *c12Case) (*c12Out, error) {
+		if c.views == nil {
+			return nil, errC12NoViews
+		}
+		b, err := c.buildView(c.views)
+		if err != nil {
+			return nil, err
+		}
+		next := 0
+		order := c.views.expect(len(c.rows), &next)
+		if n := b.rg.NumRows(); int(n) != len(order) {
+			return nil, fmt.Errorf("the composed view reports %d rows for %d", n, len(order))
+		}
+		out, err := read(ctx, c, b.rg)
+		if out != nil {
+			out.order = order
+		}
+		return out, err
+	}}
+}
+
+func init() {
+	c12Paths = append(c12Paths,
+		c12ViewPath("composed-views-rows", func(ctx *core.Ctx, c *c12Case, root parquet.RowGroup) (*c12Out, error) {
+			rr := root.Rows()
+			defer rr.Close()
+			rows, err := c12ReadRows(rr, c.batch)
+			if err != nil {
+				return nil, err
+			}
+			return c.rowsOut(ctx, rows)
+		}),
+		c12ViewPath("composed-views-generic-reader", func(ctx *core.Ctx, c *c12Case, root parquet.RowGroup) (*c12Out, error) {
+			rd := parquet.NewGenericRowGroupReader[any](root, c.tgtS)
+			defer rd.Close()
+			rows, err := c12ReadRows(rd, c.batch)
+			if err != nil {
+				return nil, err
+			}
+			return c.rowsOut(ctx, rows)
+		}),
+		c12ViewPath("composed-views-copy-rows", func(ctx *core.Ctx, c *c12Case, root parquet.RowGroup) (*c12Out, error) {
+			var buf bytes.Buffer
+			w := parquet.NewWriter(&buf, c.tgtS)
+			rr := root.Rows()
+			n, err := parquet.CopyRows(w, rr)
+			rr.Close()
+			if err != nil {
+				return nil, err
+			}
+			if err := w.Close(); err != nil {
+				return nil, err
+			}
+			if n != root.NumRows() {
+				return nil, fmt.Errorf("CopyRows reported %d rows for %d", n, root.NumRows())
+			}
+			return c.fileOut(ctx, buf.Bytes())
+		}),
+		c12ViewPath("composed-views-write-rowgroup", func(ctx *core.Ctx, c *c12Case, root parquet.RowGroup) (*c12Out, error) {
+			var buf bytes.Buffer
+			w := parquet.NewWriter(&buf, c.tgtS)
+			if _, err := w.WriteRowGroup(root); err != nil {
+				return nil, err
+			}
+			if err := w.Close(); err != nil {
+				return nil, err
+			}
+			return c.fileOut(ctx, buf.Bytes())
+		}),
+	)
+}
+
 func c12FirstDiff(exp, got [][]gen.Triple) (col, idx int, desc string) {
 	for c := range exp {
 		n := min(len(exp[c]), len(got[c]))
@@ -1334,7 +1655,7 @@ func c12AddedKey(p c12Path, c *c12Case, col int) string {
 
 // ---------------------------------------------------------------- the check
 
-const c12Rule = "random source schemas (required/optional/repeated leaves of 8 physical kinds, groups, LIST groups, depth <= 4, <= 10 leaves, field order kept by an ordered group node) x random targets (pure permutation at every depth / delete + permute at any depth, then one of: nothing / add optional, required, repeated leaves and groups incl. inside repeated groups and lists / required->optional / optional->required / an incompatible change) x random rows shredded by the harness reference shredder x 11 library paths (Convert+conversion.Convert, ConvertRowGroup rows and column chunks - every chunk also re-read through Page.Slice at random row bounds and after Pages().SeekToRow(k) -, NewReader(schema), NewRowGroupReader(schema), NewGenericReader[any](schema), NewGenericRowGroupReader[any](schema) over a file row group and over a Buffer, CopyRows into a writer, WriteRowGroup of the converted row group, MergeRowGroups with a schema) + 5 struct pairs through Read[B], NewGenericReader[B], NewGenericRowGroupReader[B], Reader.Read(&B) and Reader.Read with the target type drawn per call + sorted sources (2-3 declared sorting columns, asc/desc, buffers and files) x targets dropping every subset of the sorting columns (declared order of the converted row group and of the merge must be a true order of the rows) + MergeRowGroups(schema, sorting) over two sorted files with small pages whose key ranges overlap in part (lone stretches > 1024 rows) read as rows, through CopyRows and WriteRowGroup; expected = reference shred of the projected value against the target schema; L2: conversion.Convert vs the Lean mirror convertRow, the harness projection vs the Lean spec, EqualNodes/SameNodes vs equalN/sameN, Reader.Read histories vs Rd.run; every library call runs in a worker subprocess (address-space limit, recover, timeout): a panic, fatal error or hang is an L1 failure of that case; non-trivial = the target differs from the source and a shared optional/repeated column holds both nulls and values"
+const c12Rule = "random source schemas (required/optional/repeated leaves of 8 physical kinds, groups, LIST groups, depth <= 4, <= 10 leaves, field order kept by an ordered group node) x random targets (pure permutation at every depth / delete + permute at any depth, then one of: nothing / add optional, required, repeated leaves and groups incl. inside repeated groups and lists / required->optional / optional->required / an incompatible change) x random rows shredded by the harness reference shredder x 15 library paths (Convert+conversion.Convert, ConvertRowGroup rows and column chunks - every chunk also re-read through Page.Slice at random row bounds and after Pages().SeekToRow(k) -, NewReader(schema), NewRowGroupReader(schema), NewGenericReader[any](schema), NewGenericRowGroupReader[any](schema) over a file row group and over a Buffer, CopyRows into a writer, WriteRowGroup of the converted row group, MergeRowGroups with a schema; and a random composition of views - MergeRowGroups(schema) / MultiRowGroup / ConvertRowGroup / row ranges over files and Buffers under the source and under the target schema - read through Rows(), NewGenericRowGroupReader[any], CopyRows, WriteRowGroup) + 5 struct pairs through Read[B], NewGenericReader[B], NewGenericRowGroupReader[B], Reader.Read(&B) and Reader.Read with the target type drawn per call + sorted sources (2-3 declared sorting columns, asc/desc, buffers and files) x targets dropping every subset of the sorting columns (declared order of the converted row group and of the merge must be a true order of the rows) + MergeRowGroups(schema, sorting) over two sorted files with small pages whose key ranges overlap in part (lone stretches > 1024 rows; targets delete/permute, then add / widen / narrow) read as rows, through CopyRows and WriteRowGroup; expected = reference shred of the projected value against the target schema; L2: conversion.Convert vs the Lean mirror convertRow, the harness projection vs the Lean spec, EqualNodes/SameNodes vs equalN/sameN, Reader.Read histories vs Rd.run, rowGroupReadsChunksInOrder on every node of every composed view vs inOrder; every library call runs in a worker subprocess (address-space limit, recover, timeout): a panic, fatal error or hang is an L1 failure of that case; non-trivial = the target differs from the source and a shared optional/repeated column holds both nulls and values"
 
 // RunC12 is the parent: it never calls the library itself. The cases run in worker
 // subprocesses (`pqcheck -worker c12 ...`); when a worker dies (fatal error: out of memory,
@@ -1342,7 +1663,7 @@ const c12Rule = "random source schemas (required/optional/repeated leaves of 8 p
 // becomes an L1 failure and a new worker continues behind it.
 func RunC12(ctx *core.Ctx) {
 	ctx.SetRule(c12Rule)
-	npairs := ctx.Scale(2000, 50000)
+	npairs := ctx.Scale(2000, 40000)
 	shards := 16
 	var wg sync.WaitGroup
 	for w := 0; w < shards; w++ {
@@ -1618,6 +1939,7 @@ func c12RandomCase(ctx *core.Ctx, d interface {
 		c.rows = append(c.rows, c12RowOf(c12ShredRow(src, v)))
 		pv := c12ProjectBody(src, tgt, v)
 		cols := c12ShredRow(tgt, pv)
+		c.trows = append(c.trows, c12RowOf(cols))
 		one := make([][]gen.Triple, len(cols))
 		for ci, col := range cols {
 			for _, x := range col {
@@ -1637,6 +1959,9 @@ func c12RandomCase(ctx *core.Ctx, d interface {
 	detail := func(extra map[string]any) map[string]any {
 		m := map[string]any{"source": src.text(), "target": tgt.text(), "mode": tg.mode, "ops": tg.ops,
 			"lean_source": srcText, "lean_target": tgtText, "rows": valTexts, "batch": c.batch}
+		if c.views != nil {
+			m["composed_views"] = c.views.text()
+		}
 		for k, v := range extra {
 			m[k] = v
 		}
@@ -1686,6 +2011,31 @@ func c12RandomCase(ctx *core.Ctx, d interface {
 		}
 	}
 
+	// the projected rows under the target schema (members of the composed views), then the
+	// composition itself
+	if tg.mode != "incompat" {
+		at("target-write", tg.mode, detail(nil))
+		var buf bytes.Buffer
+		_, err := c12Guard(func() (*c12Out, error) {
+			w := parquet.NewWriter(&buf, c.tgtS)
+			_, err := w.WriteRows(append([]parquet.Row(nil), c.trows...))
+			if err == nil {
+				err = w.Close()
+			}
+			return nil, err
+		})
+		if err != nil {
+			ctx.Fail("L1", "target-write-error "+errClass(err), "cannot write the projected rows under the target schema: "+err.Error(), detail(nil))
+		} else {
+			c.tfile = buf.Bytes()
+		}
+		c.views = c12RootView(rand.New(rand.NewSource(r.Int63())), nrows, c.tfile != nil)
+		ctx.Hist("composed-views-leaves", fmt.Sprint(c.views.leafCount()))
+		ctx.Hist("composed-views-row-ranges", fmt.Sprint(c.views.count("range")))
+		ctx.Hist("composed-views-depth", fmt.Sprint(c.views.depth()))
+		ctx.Hist("composed-views-root", c.views.op)
+	}
+
 	nontrivial := false
 	if tgtText != srcText {
 		for ci, lf := range c.tleaves {
@@ -1726,6 +2076,9 @@ func c12RandomCase(ctx *core.Ctx, d interface {
 	for _, p := range c12Paths {
 		at(p.name, tg.mode, detail(nil))
 		out, err := c12Guard(func() (*c12Out, error) { return p.run(ctx, c) })
+		if err == errC12NoViews {
+			continue
+		}
 		ctx.Hist("path", p.name)
 		if tg.mode == "incompat" {
 			kindChange := tg.what == "group-to-leaf" || tg.what == "leaf-to-group"
@@ -1766,12 +2119,23 @@ func c12RandomCase(ctx *core.Ctx, d interface {
 		}
 		want := exp
 		wantRows := nrows
-		if p.dup == 2 {
+		if p.dup > 1 {
 			want = make([][]gen.Triple, len(exp))
 			for ci := range exp {
-				want[ci] = append(append([]gen.Triple{}, exp[ci]...), exp[ci]...)
+				for k := 0; k < p.dup; k++ {
+					want[ci] = append(want[ci], exp[ci]...)
+				}
 			}
-			wantRows = 2 * nrows
+			wantRows = p.dup * nrows
+		}
+		if out != nil && out.order != nil {
+			want = make([][]gen.Triple, len(exp))
+			for _, id := range out.order {
+				for ci := range exp {
+					want[ci] = append(want[ci], expRows[id%nrows][ci]...)
+				}
+			}
+			wantRows = len(out.order)
 		}
 		if err != nil && out == nil {
 			switch {
@@ -1815,7 +2179,9 @@ func c12RandomCase(ctx *core.Ctx, d interface {
 		}
 		key := ""
 		switch {
-		case firstShared >= 0 && sharedToggled && (tg.mode == "widen" || tg.mode == "narrow"):
+		case firstShared >= 0 && sharedToggled && (tg.mode == "widen" || tg.mode == "narrow") && p.name == "convert-rowgroup-chunks":
+			// (only the direct read of ConvertRowGroup(...).ColumnChunks() is the recorded finding;
+			// on every other path a widened/narrowed column that differs is a shared column altered)
 			key, col = tg.mode+"ed-column-keeps-source-levels:"+p.name, firstShared
 		case firstAdded >= 0 && (firstShared < 0 || p.chunks):
 			// (on the column-chunk paths a short added column also misaligns the rows)
@@ -1864,6 +2230,43 @@ func c12RandomCase(ctx *core.Ctx, d interface {
 				detail(map[string]any{"go": "ok " + b[goEq] + " " + b[goSame] + " 1 1", "lean": a[0]}))
 		}
 		ctx.Hist("guards", "EqualNodes="+b[goEq]+" SameNodes="+b[goSame]+" ("+tg.mode+")")
+	}
+	// L2: the composed view vs the Lean mirror of rowGroupReadsChunksInOrder on every node, and the harness expectation vs the Lean spec `sem`
+	if c.views != nil {
+		var b *c12Built
+		_, gerr := c12Guard(func() (*c12Out, error) {
+			var err error
+			b, err = c.buildView(c.views)
+			return nil, err
+		})
+		if gerr == nil {
+			next := 0
+			var ids []string
+			for _, id := range c.views.expect(nrows, &next) {
+				ids = append(ids, fmt.Sprint(id))
+			}
+			a, err := d.AskMany([]string{"convert.views " + b.lean})
+			switch {
+			case err != nil:
+				ctx.Fail("L2", "driver-error", err.Error(), nil)
+			default:
+				parts := strings.Split(a[0], " | ")
+				switch {
+				case len(parts) != 3 || !strings.HasPrefix(parts[0], "ok "):
+					ctx.Fail("L2", "lean-rejects-case", "convert.views: "+a[0], detail(map[string]any{"lean_view": b.lean}))
+				case strings.TrimPrefix(parts[0], "ok ") != strings.Join(b.flags, ","):
+					ctx.Fail("L2", "views-read-chunks-in-order-vs-lean-mirror", "rowGroupReadsChunksInOrder of the nodes of a composed view (preorder) and the Lean mirror inOrder disagree",
+						detail(map[string]any{"lean_view": b.lean, "go": strings.Join(b.flags, ","), "lean": strings.TrimPrefix(parts[0], "ok ")}))
+				case parts[1] != "1":
+					ctx.Fail("L2", "lean-view-mirror-differs-from-spec", "the Lean mirror of Rows() differs from the spec on a composition the harness takes for well formed",
+						detail(map[string]any{"lean_view": b.lean, "lean": a[0]}))
+				case parts[2] != strings.Join(ids, ","):
+					ctx.Fail("L2", "harness-view-expectation-vs-lean-spec", "the rows the harness expects from the composed view and the Lean spec `sem` disagree",
+						detail(map[string]any{"lean_view": b.lean, "harness": strings.Join(ids, ","), "lean": parts[2]}))
+				}
+				ctx.Hist("composed-views-vs-lean", "compared")
+			}
+		}
 	}
 	reqs := make([]string, nrows)
 	for i := range reqs {
@@ -2780,7 +3183,7 @@ func c12DropShape(mask, n int) string {
 // serves a stretch as a row-range view over the column chunks of the converted row group). The
 // row of an id is a function of the id, so that the two copies of an id in the overlap are equal
 // and the merged sequence is fully determined. Target: fields deleted and permuted at any depth
-// (never `id`). Paths: MergeRowGroups(schema, sorting).Rows(); CopyRows of those rows into a
+// (never `id`), then nothing / fields added / required->optional / optional->required. Paths: MergeRowGroups(schema, sorting).Rows(); CopyRows of those rows into a
 // writer; WriteRowGroup of the merged row group. Expected: the reference shredding of the
 // projected rows in id order.
 func c12BigMergeCase(ctx *core.Ctx, r *rand.Rand, at func(path, mode string, detail any)) {
@@ -2797,8 +3200,8 @@ func c12BigMergeCase(ctx *core.Ctx, r *rand.Rand, at func(path, mode string, det
 	src.fields = append(src.fields[:pos:pos], append([]*c12Node{idf}, src.fields[pos:]...)...)
 	var tg *c12Target
 	for try := 0; ; try++ {
-		mode := "drop-permute"
-		if r.Intn(3) == 0 || try > 10 {
+		mode := []string{"drop-permute", "drop-permute", "drop-permute", "permute", "widen", "widen", "add", "add", "add", "narrow"}[r.Intn(10)]
+		if try > 10 {
 			mode = "permute"
 		}
 		tg = g.target(src, mode)
@@ -2897,6 +3300,46 @@ func c12BigMergeCase(ctx *core.Ctx, r *rand.Rand, at func(path, mode string, det
 		}
 	}
 	cs := &c12Case{src: src, tgt: tgt, srcS: srcS, tgtS: tgtS, tleaves: tleaves}
+	// targets that add columns: where conversion.Convert itself gives an added column borrowed
+	// levels on some row of this case (F19, recorded), the failures of the case belong to that
+	// family; where it converts every row as expected, every path must do so too
+	addedKey := ""
+	if tg.mode == "add" {
+		at("big-merge-convert-rows", tg.mode, det)
+		_, err := c12Guard(func() (*c12Out, error) {
+			conv, err := parquet.Convert(tgtS, srcS)
+			if err != nil {
+				return nil, err
+			}
+			for id := int64(0); id < int64(lo+nB) && addedKey == ""; id++ {
+				v := valOf(id)
+				rows := []parquet.Row{c12RowOf(c12ShredRow(src, v))}
+				if _, err := conv.Convert(rows); err != nil {
+					return nil, err
+				}
+				got, err := c12SplitRows(nil, rows, tleaves)
+				want := c12ShredRow(tgt, c12ProjectBody(src, tgt, v))
+				for ci := range want {
+					var w []gen.Triple
+					for _, x := range want[ci] {
+						w = append(w, c12Canon(nil, x, tleaves[ci]))
+					}
+					if err != nil || !reflect.DeepEqual(w, got[ci]) {
+						if added, _, _ := c12AddedShape(src, tgt, tleaves[ci].path); added || err != nil {
+							addedKey = c12AddedKey(c12Path{}, cs, ci)
+							break
+						}
+					}
+				}
+			}
+			return nil, nil
+		})
+		if err != nil {
+			ctx.Fail("L1", "path-error:convert-rows:add:"+errClass(err), "Convert fails on a target that adds columns: "+err.Error(), det)
+			return
+		}
+		ctx.Hist("big-merge-added-columns", map[bool]string{true: "row conversion right on every row", false: "row conversion borrows levels (F19)"}[addedKey == ""])
+	}
 	merge := func() (parquet.RowGroup, error) {
 		m, err := parquet.MergeRowGroups([]parquet.RowGroup{fa.RowGroups()[0], fb.RowGroups()[0]}, tgtS, parquet.SortingRowGroupConfig(sorting))
 		if err != nil {
@@ -2970,7 +3413,14 @@ func c12BigMergeCase(ctx *core.Ctx, r *rand.Rand, at func(path, mode string, det
 			if strings.HasPrefix(err.Error(), "PANIC") {
 				k = "path-panic:" + p.name + ":" + tg.mode
 			}
-			ctx.Fail("L1", k, err.Error(), det)
+			if addedKey != "" {
+				k = addedKey
+			}
+			if strings.Contains(err.Error(), "FIXED_LEN_BYTE_ARRAY") && (tg.mode == "add" || tg.mode == "narrow") {
+				// the zero value synthesised for a required FIXED_LEN_BYTE_ARRAY column has no bytes
+				k = "fixed-len-zero-value-is-empty:" + tg.mode
+			}
+			ctx.Fail("L1", k, "path "+p.name+": "+err.Error(), det)
 			continue
 		}
 		col, idx, desc := c12FirstDiff(exp, out.cols)
@@ -2979,6 +3429,14 @@ func c12BigMergeCase(ctx *core.Ctx, r *rand.Rand, at func(path, mode string, det
 		}
 		what := fmt.Sprintf("rows expected %d got %d", len(ids), out.nrows)
 		key := "row-count-or-structure:" + p.name + ":" + tg.mode
+		if addedKey != "" {
+			m := map[string]any{"path": p.name}
+			for k, v := range det {
+				m[k] = v
+			}
+			ctx.Fail("L1", addedKey, "path "+p.name+" on rows whose added column carries borrowed levels: "+what+" "+desc, m)
+			continue
+		}
 		if err != nil {
 			what += "; " + err.Error()
 		}
